@@ -3,6 +3,8 @@ import collections, os, re, subprocess
 from concurrent.futures import ThreadPoolExecutor
 import common
 
+_RETS = re.compile(r'rets=\S*')
+
 def read(p):
     return open(p).read().split('\n')[:-1]
 
@@ -69,7 +71,8 @@ def analyse(wd, mode):
         kind = None
         if sp.startswith('IMPL-SPEC-FAIL'):
             kind = 'impl-violates-spec'
-        elif impl[i] != model[i]:
+        elif impl[i] != model[i] and not (t[0] == 'iphase' and _RETS.sub('rets=', impl[i]) == _RETS.sub('rets=', model[i])):
+            # (iphase: which of the K picks were the dropped ones of Initialize() is not observable; everything else is compared)
             kind = 'impl-model-differ'
         if kind:
             bad = 'spec' if kind == 'impl-violates-spec' else 'differ'
